@@ -934,6 +934,10 @@ class Interp:
             ga = o.cls.find("__getattr__")
             if isinstance(ga, PFunc):
                 return self.call(PBound(ga, o), [name], {})
+            if o.has_base and hasattr(o.base, name) and not isinstance(o.base, Sym):
+                if isinstance(o.base, (list, dict, set)):
+                    return getattr(o.base, name)  # container methods (append, extend, ...): shape-only operations, the elements may be symbolic
+                raise Unsupported(f"{name!r} of a {o.cls.name} whose {type(o.base).__name__} value holds symbolic parts")
             if any(isinstance(b, StubModule) for c_ in o.cls.mro() for b in c_.bases):
                 # a base class that lives in a module without a model: what it would provide is unknown
                 raise Unsupported(f"{name!r} of {o.cls.name}: the class derives from an external class the engine does not model")
